@@ -286,6 +286,8 @@ func c08(r *ev.Result, tier string) {
 	/* Above GetCertificate: sstls.Listen, and the server the program's way. */
 	c08ListenHistories(r, base)
 	c08ServerSeam(r, base, file0, pin0)
+	c08WriteErrors(r, base, log0)
+	c08PathShapes(r, base)
 	nHist := c08Histories(r, base, depth, v)
 	r.Set("histories", nHist)
 
@@ -502,7 +504,7 @@ func c08RunHistory(base string, hist []string, v func(string, string, c08Case)) 
 }
 
 func c08Replay(kind string, raw json.RawMessage) int {
-	if "c08listen" == kind || "c08server" == kind {
+	if "c08listen" == kind || "c08server" == kind || "c08werr" == kind || "c08path" == kind {
 		fmt.Println("findings of the Listen-level and server-level seams are replayed by re-running ./run C08 quick; the history or the damage is in the artefact")
 		return 2
 	}
